@@ -185,16 +185,29 @@ package httpserver
 //@ extern fmt.Errorf
 //@   ensures result != nil
 //@ func groupSiteConfigsByListenAddr
+//@   modifies SiteConfig.Addr, Address.Port, MV:map[string][]*github.com/tmpim/casket/caskethttp/httpserver.SiteConfig, MD:map[string][]*github.com/tmpim/casket/caskethttp/httpserver.SiteConfig, E:*github.com/tmpim/casket/caskethttp/httpserver.SiteConfig
+//@   requires forall(k, 0, len(configs), configs[k] != nil)
+//@   ensures result1 == nil ==> forallT(a, string, has(result0, a) ==> forall(k, 0, len(result0[a]), result0[a][k] != nil))
+//@   ensures (result1 == nil && forall(k, 0, len(configs), configs[k].Limits.MaxRequestHeaderSize >= 0)) ==> forallT(a, string, has(result0, a) ==> forall(k, 0, len(result0[a]), result0[a][k].Limits.MaxRequestHeaderSize >= 0))
+//@   ensures [input_list_untouched] forall(k, 0, len(configs), configs[k] == old(configs[k]))
 //@ func NewServer
+//@   requires forall(k, 0, len(group), group[k] != nil && group[k].Limits.MaxRequestHeaderSize >= 0)
 //@ define sc(k int) *SiteConfig = h.siteConfigs[k]
 //@ define plainHTTP(k int) bool = sc(k).Addr.Port == strconv.Itoa(certmagic.HTTPPort) || sc(k).Addr.Scheme == "http"
+//@ define declHTTP(k int) bool = old(h.siteConfigs[k].Addr.Port) == strconv.Itoa(certmagic.HTTPPort) || old(h.siteConfigs[k].Addr.Scheme) == "http"
 //@ func (*httpContext).MakeServers
 //@   requires h != nil && strconv.Itoa(certmagic.HTTPPort) != strconv.Itoa(certmagic.HTTPSPort) && strconv.Itoa(certmagic.HTTPPort) != ""
 //@   requires forall(k, 0, len(h.siteConfigs), sc(k) != nil && sc(k).TLS != nil && sc(k).TLS.Manager != nil)
-//@   modifies Config.Enabled, Address.Scheme, Address.Port
-//@   ensures [http_sites_plaintext] result1 == nil ==> forall(k, 0, len(h.siteConfigs), plainHTTP(k) ==> !sc(k).TLS.Enabled)
+//@   // a site's header limit is 0 (not set) or what the `limits` setup stored: positive (limits unit setup_sweep, clause a_stored_header_limit_is_positive)
+//@   requires forall(k, 0, len(h.siteConfigs), sc(k).Limits.MaxRequestHeaderSize >= 0)
+//@   modifies Config.Enabled, Address.Scheme, Address.Port, SiteConfig.Addr, MV:map[string][]*github.com/tmpim/casket/caskethttp/httpserver.SiteConfig, MD:map[string][]*github.com/tmpim/casket/caskethttp/httpserver.SiteConfig, E:*github.com/tmpim/casket/caskethttp/httpserver.SiteConfig
+//@   // "declared as plain HTTP" is about the address the site came in with (grouping fills an empty port with the
+//@   // process-wide default port afterwards - a site that merely inherits `-port 80` was not declared plain HTTP)
+//@   ensures [http_sites_plaintext] result1 == nil ==> forall(k, 0, len(h.siteConfigs), declHTTP(k) ==> !sc(k).TLS.Enabled)
 //@   loop 1 invariant 0 <= #i && #i <= len(h.siteConfigs) && h != nil && httpPort == strconv.Itoa(certmagic.HTTPPort) && httpsPort == strconv.Itoa(certmagic.HTTPSPort)
 //@   loop 1 invariant forall(k, 0, len(h.siteConfigs), sc(k) != nil && sc(k).TLS != nil && sc(k).TLS.Manager != nil)
+//@   loop 1 invariant forall(k, 0, len(h.siteConfigs), sc(k) == old(h.siteConfigs[k]))
+//@   loop 1 invariant [the_only_address_changes_fill_an_empty_port_or_scheme] forall(k, 0, len(h.siteConfigs), (sc(k).Addr.Port == old(h.siteConfigs[k].Addr.Port) || (old(h.siteConfigs[k].Addr.Port) == "" && sc(k).Addr.Port == httpsPort)) && (sc(k).Addr.Scheme == old(h.siteConfigs[k].Addr.Scheme) || (old(h.siteConfigs[k].Addr.Scheme) == "" && sc(k).Addr.Scheme == "https")))
 //@   loop 1 invariant [processed_plain_sites_off] forall(k, 0, #i, plainHTTP(k) ==> !sc(k).TLS.Enabled)
 
 //@ unit match_host frames=on props=C01 filter=`vhostTrie\)\.matchHost$`
@@ -336,6 +349,7 @@ package httpserver
 //@ use @verif/specs/stdlib.spec:nethttp_api
 //@ // the replacer constructor only wraps the request body for {request_body}; nothing this handler reads (explicit frame-empty assumption)
 //@ func NewReplacer
+//@   modifies Request.Body
 //@   requires r != nil
 //@   ensures result != nil
 //@ ghost errCalls int
@@ -348,11 +362,14 @@ package httpserver
 //@   ensures errCalls == old(errCalls) + 1 && lastErr == status
 
 //@ func (*Server).serveHTTP
+//@   requires s != nil && w != nil && r != nil && r.URL != nil && s.vhosts != nil && s.Server != nil && forall(k, 0, len(s.sites), s.sites[k] != nil && s.sites[k].TLS != nil && s.sites[k].TLS.Issuer != nil)
 //@   may_panic
 
 //@ func (*Server).ServeHTTP
-//@   modifies ghost:errCalls, ghost:lastErr
+//@   modifies ghost:errCalls, ghost:lastErr, Request.Body
 //@   requires s != nil && w != nil && r != nil && r.URL != nil && panicked == 0
+//@   // the server as NewServer builds it (unit middleware_compile): its trie, its net/http server, its sites with their TLS settings
+//@   requires s.vhosts != nil && s.Server != nil && forall(k, 0, len(s.sites), s.sites[k] != nil && s.sites[k].TLS != nil && s.sites[k].TLS.Issuer != nil)
 //@   ensures [at_most_one_error_body] errCalls <= old(errCalls) + 1
 //@   ensures [panic_gives_500] panicked == 1 ==> (errCalls == old(errCalls) + 1 && lastErr == 500)
 
@@ -859,6 +876,8 @@ package httpserver
 //@   requires forall(k, 0, len(group), group[k] != nil)
 //@   ensures [a_server] result != nil
 //@ func makeHTTPServerWithHeaderLimit
+//@   modifies Server.MaxHeaderBytes
+//@   requires s != nil && forall(k, 0, len(group), group[k] != nil && group[k].Limits.MaxRequestHeaderSize >= 0)
 //@   ensures [returns_server] result == s
 //@ func newVHostTrie
 //@   ensures result != nil
@@ -866,7 +885,8 @@ package httpserver
 //@ func (Address).VHost
 //@   pure
 //@ func NewServer
-//@   requires forall(k, 0, len(group), group[k] != nil)
+//@   // a site's header limit is never negative (the `limits` setup rejects such a value: unit limits_parse)
+//@   requires forall(k, 0, len(group), group[k] != nil && group[k].Limits.MaxRequestHeaderSize >= 0)
 //@   at call dynamic#1 before [each_entry_wraps_the_chain_built_from_the_later_ones] 0 <= i && i < len(site.middleware) && callee == site.middleware[i] && arg0 == stack
 //@   at call (*vhostTrie).Insert before [site_is_filed_with_its_complete_chain] i == -1 && site.middlewareChain == stack
 //@   at call (*vhostTrie).Insert before [site_is_filed_under_its_address_as_written] arg1 == site.Addr.VHost() && arg2 == site && arg0 == s.vhosts
@@ -938,7 +958,13 @@ package httpserver
 //@   modifies SiteConfig.Addr, Address.Port, MV:map[string][]*github.com/tmpim/casket/caskethttp/httpserver.SiteConfig, MD:map[string][]*github.com/tmpim/casket/caskethttp/httpserver.SiteConfig, E:*github.com/tmpim/casket/caskethttp/httpserver.SiteConfig
 //@   at call mapupdate:*#1 before [the_site_joins_the_group_of_its_own_resolved_address] arg1 == addr.String() && len(arg2) == len(groups[arg1]) + 1 && arg2[len(arg2)-1] == conf && forall(k, 0, len(groups[arg1]), arg2[k] == groups[arg1][k])
 //@   at call net.ResolveTCPAddr before [resolved_from_the_sites_listen_host_and_port] arg1 == net.JoinHostPort(conf.ListenHost, conf.Addr.Port) && (conf.Addr.Port != "" || Port == "")
+//@   ensures [every_group_member_is_a_site] result1 == nil ==> forallT(a, string, has(result0, a) ==> forall(k, 0, len(result0[a]), result0[a][k] != nil))
+//@   ensures [input_list_untouched] forall(k, 0, len(configs), configs[k] == old(configs[k]))
+//@   ensures [a_group_member_keeps_a_valid_header_limit] (result1 == nil && forall(k, 0, len(configs), configs[k].Limits.MaxRequestHeaderSize >= 0)) ==> forallT(a, string, has(result0, a) ==> forall(k, 0, len(result0[a]), result0[a][k].Limits.MaxRequestHeaderSize >= 0))
 //@   loop 1 invariant forall(k, 0, len(configs), configs[k] != nil)
+//@   loop 1 invariant forallT(a, string, has(groups, a) ==> forall(k, 0, len(groups[a]), groups[a][k] != nil))
+//@   loop 1 invariant forall(k, 0, len(configs), configs[k] == old(configs[k]))
+//@   loop 1 invariant forall(k, 0, len(configs), configs[k].Limits.MaxRequestHeaderSize >= 0) ==> forallT(a, string, has(groups, a) ==> forall(k, 0, len(groups[a]), groups[a][k].Limits.MaxRequestHeaderSize >= 0))
 
 //@ unit recorder_readout frames=on props=C20 nilchecks=on verify_pure=on filter=`httpserver\.NewResponseRecorder$|httpserver\.ResponseRecorder\)\.(Size|Status)$`
 //@ // C20 "{status} and {size} are what was sent": a new recorder starts at status 200 (what net/http sends when a handler
